@@ -81,6 +81,8 @@ def token_table(v):
             out[a[0]] = val[1]
         elif val[0] == "lit":
             out[a[0]] = val[1]
+        elif val[:2] == ("ctor", "Result::Ok"):
+            out[a[0]] = ""      # `Ok(())` in the place of a write: nothing is printed
         else:
             out[a[0]] = None
     return out
